@@ -507,6 +507,11 @@ def _full_case(ctx, rng, k, net=None, feat=None, expect=None):
         ctx.case(case, nontrivial=True)
         return None
     lk = net._pd2ppc_lookups["bus"].copy()
+    if ppc["branch"].shape[0] == 0:
+        # isolated slack bus, no branch in service: nothing to convert (an empty branch matrix cannot be stored in a .mat file)
+        ctx.count("degenerate_no_branch_in_service")
+        ctx.case(case, nontrivial=False)
+        return None
     for f_ in sorted(feat):
         ctx.count("feature_" + f_)
     ctx.case(case, nontrivial=bool(feat - {"oos"}), sample={"features": sorted(feat), "ppc_branch_rows": int(ppc["branch"].shape[0]),
@@ -704,7 +709,7 @@ def run(ctx):
     nb_a = len(terms)
     for ppc, net, tb, case, tag in stage_b:
         terms += tb
-    model = ctx.coq_eval("c21", "Base.QN C21.Model", terms, shard=150, timeout=280)
+    model = ctx.coq_eval("c21", "Base.QN C21.Model", terms, shard=100, timeout=900)
     pos = 0
     for ta, ea, wa, case in stage_a:
         _cmp_to_ppc(ctx, model[pos:pos + len(ta)], ea, wa, case)
